@@ -1,5 +1,77 @@
-//! driver stub (VERIF_CMD=robust)
+//! C13 function-level sites: every place that shortens a text at a byte offset, and the log-line header.
+//! JSON lines on stdin -> JSON lines in VERIF_OUT.  A panic in the code under test is caught and reported as data.
+use crate::shared_state::agent_status_wrapper::{AgentStatusModule, AgentStatusSharedState};
+use serde_json::{json, Value};
+use std::io::{BufRead, Write};
+
+fn text_of(spec: &Value) -> String {
+    // {"pad": n ascii bytes, "tail": [code-point widths]}
+    let mut s = "a".repeat(spec["pad"].as_u64().unwrap_or(0) as usize);
+    for w in spec["tail"].as_array().cloned().unwrap_or_default() {
+        s.push(match w.as_u64().unwrap_or(1) {
+            1 => 'b',
+            2 => '\u{e9}',
+            3 => '\u{20ac}',
+            _ => '\u{1F600}',
+        });
+    }
+    s
+}
+
 pub fn main() -> i32 {
-    eprintln!("not built yet");
-    2
+    let rt = tokio::runtime::Builder::new_current_thread().enable_all().build().unwrap();
+    let status = rt.block_on(async { AgentStatusSharedState::start_new() });
+    let stdin = std::io::stdin();
+    let mut out = std::io::BufWriter::new(std::fs::File::create(super::env("VERIF_OUT")).expect("VERIF_OUT"));
+    for line in stdin.lock().lines() {
+        let line = line.unwrap();
+        if line.trim().is_empty() {
+            continue;
+        }
+        let cmd: Value = serde_json::from_str(&line).expect("bad command");
+        let kind = cmd["kind"].as_str().unwrap_or("").to_string();
+        let r = std::panic::catch_unwind(std::panic::AssertUnwindSafe(|| match kind.as_str() {
+            "event_cut" => {
+                let msg = text_of(&cmd["msg"]);
+                proxy_agent_shared::telemetry::event_logger::write_event(
+                    proxy_agent_shared::logger::LoggerLevel::Info,
+                    msg,
+                    "verif",
+                    "verif",
+                    "none",
+                );
+                json!({"ok": true})
+            }
+            "status_cut" => {
+                let msg = text_of(&cmd["msg"]);
+                let len = msg.len();
+                let got = rt.block_on(async {
+                    let _ = status
+                        .set_module_status_message(msg, AgentStatusModule::KeyKeeper)
+                        .await;
+                    status.get_module_status(AgentStatusModule::KeyKeeper).await
+                });
+                json!({"ok": true, "inLen": len, "outLen": got.message.len()})
+            }
+            "log_header" => {
+                let n = cmd["n"].as_u64().unwrap_or(1000);
+                let mut short = 0u64;
+                for _ in 0..n {
+                    let h = proxy_agent_shared::logger::get_log_header(proxy_agent_shared::logger::LoggerLevel::Info);
+                    if h.len() != 34 {
+                        short += 1;
+                    }
+                }
+                json!({"ok": true, "short": short})
+            }
+            other => json!({"error": format!("unknown kind {}", other)}),
+        }));
+        let v = match r {
+            Ok(v) => v,
+            Err(_) => json!({"panic": true}),
+        };
+        writeln!(out, "{}", v).unwrap();
+    }
+    out.flush().unwrap();
+    0
 }
